@@ -86,6 +86,30 @@ def main():
                 valid.append([s, v])
         info['valid'] = valid
         res[name] = info
+    # extended corpus: presentations that are doctest-valid for a sibling module of the same package and that this module's
+    # own validate() accepts too (aggregating formats such as us.tin, be.ssn, es.nif have few examples of their own)
+    mods = dict((m.__name__, m) for m in get_number_modules())
+    for name, info in res.items():
+        pkg = name.rsplit('.', 1)[0]
+        if pkg == 'stdnum':
+            info['valid_ext'] = []
+            continue
+        ext = []
+        have = set(r for r, v in info['valid'])
+        for other, oinfo in res.items():
+            if other == name or other.rsplit('.', 1)[0] != pkg:
+                continue
+            for r, v in oinfo['valid']:
+                if r in have:
+                    continue
+                try:
+                    w = mods[name].validate(r)
+                except Exception:
+                    continue
+                if isinstance(w, str):
+                    ext.append([r, w])
+                    have.add(r)
+        info['valid_ext'] = ext
     json.dump(res, sys.stdout)
 
 
